@@ -22,8 +22,6 @@ import PV.Model.Algo
     - a non-target leaf is returned as the constant term even when a target occurs inside it
       (`a[x]`, `f(x)`), and a `Lookup`/wildcard whose *attribute* name is a target name is taken
       for a target;
-    - the matrix assembly ASSIGNS (`mat[i, j] = …`) instead of accumulating, so a term that occurs
-      on both sides of one equation keeps only its right-hand coefficient;
     - no check for under- or overdetermined systems beyond "exactly one non-zero entry per column".
 -/
 namespace PV.Coeff
@@ -344,23 +342,25 @@ def intOf : Expr → CR Int
   | .const (.int n) => pure n
   | _ => throw .noClaim
 
-/-- the two inner loops of "build matrix and rhs" for one side of one equation -/
+/-- the two inner loops of "build matrix and rhs" for one side of one equation; contributions
+accumulate (`mat[i, j] += lhs_factor*coeff`, `rhs_mat[i, k] += -lhs_factor*coeff`) -/
 def assembleSide (unknowns params : List Expr) (factor : Int) (row : ARow) : Dict → CR ARow
   | [] => pure row
   | (key, coeff) :: rest =>
     match idxOf unknowns key with
     | some j => do
         let v ← intOf (← pyBin .mul (.const (.int factor)) coeff)
-        assembleSide unknowns params factor (row.1.set j v, row.2) rest
+        assembleSide unknowns params factor (row.1.set j (rowGet row.1 j + v), row.2) rest
     | none =>
       match idxOf params key with
       | some j => do
           let v ← intOf (← pyBin .mul (.const (.int (-factor))) coeff)
-          assembleSide unknowns params factor (row.1, row.2.set j v) rest
+          assembleSide unknowns params factor (row.1, row.2.set j (rowGet row.2 j + v)) rest
       | none =>
         if key.pyEq one then do
           let v ← intOf (← pyBin .mul (.const (.int (-factor))) coeff)
-          assembleSide unknowns params factor (row.1, row.2.set params.length v) rest
+          assembleSide unknowns params factor
+            (row.1, row.2.set params.length (rowGet row.2 params.length + v)) rest
         else throw .keyNotUnderstood
 
 def zeroRow (n : Nat) : Row := List.replicate n 0
